@@ -1449,13 +1449,16 @@ func (up4 *UP4) sendUpdate(all PacketForwardingRules, updated PacketForwardingRu
 }
 
 func (up4 *UP4) sendDelete(deleted PacketForwardingRules) error {
+	if err := up4.modifyUP4ForwardingConfiguration(deleted.pdrs, deleted.fars, deleted.qers, p4.Update_DELETE); err != nil {
+		return err
+	}
+
+	// Only now are the counter cells unused: releasing them before the delete
+	// was written let another session take a cell that entries still carry
+	// when the write failed.
 	for i := range deleted.pdrs {
 		up4.releaseCounterID(preQosCounterID,
 			uint64(deleted.pdrs[i].ctrID))
-	}
-
-	if err := up4.modifyUP4ForwardingConfiguration(deleted.pdrs, deleted.fars, deleted.qers, p4.Update_DELETE); err != nil {
-		return err
 	}
 
 	up4.resetMeters(deleted.qers)
